@@ -31,6 +31,7 @@ type httpCase struct {
 	Hdr    string `json:"hdr"`
 	Status int    `json:"status"`
 	Rbody  int    `json:"rbody"`
+	Retry  int    `json:"retry"`
 }
 
 type hdrLine struct{ k, v string }
@@ -82,11 +83,14 @@ type seenReq struct {
 	hdr         http.Header
 	body        []byte
 	host        string
+	major       int
 }
 
 type recUpstream struct {
 	mu     sync.Mutex
 	seen   chan seenReq
+	fail   int // number of attempts still to be answered 503 (the route retries on 5xx)
+	last   int // status of the last answer sent
 	status int
 	rhdr   []hdrLine
 	rbody  []byte
@@ -103,8 +107,13 @@ func newRecUpstream() *recUpstream {
 		b, _ := io.ReadAll(r.Body)
 		u.mu.Lock()
 		st, rh, rb := u.status, u.rhdr, u.rbody
+		if u.fail > 0 {
+			u.fail--
+			st, rh, rb = 503, nil, []byte("retry-me")
+		}
+		u.last = st
 		u.mu.Unlock()
-		u.seen <- seenReq{method: r.Method, uri: r.RequestURI, hdr: r.Header.Clone(), body: b, host: r.Host}
+		u.seen <- seenReq{method: r.Method, uri: r.RequestURI, hdr: r.Header.Clone(), body: b, host: r.Host, major: r.ProtoMajor}
 		for _, l := range rh {
 			w.Header().Add(l.k, l.v)
 		}
@@ -194,6 +203,11 @@ func doH2(addr string, c *httpCase, hdrs []hdrLine, body []byte) clientResp {
 	return clientResp{ok: true, status: resp.StatusCode, hdr: resp.Header, body: rb}
 }
 
+// the protocol spoken to the cluster is a property of the route in this code base
+func upProto(name string) func(r *v2.Router) {
+	return func(r *v2.Router) { r.Route.UpstreamProtocol = name }
+}
+
 func runHTTP(casesPath, tracePath string, shard, shards int) {
 	tmp, _ := os.MkdirTemp("", "c01-http-")
 	defer os.RemoveAll(tmp)
@@ -207,7 +221,8 @@ func runHTTP(casesPath, tracePath string, shard, shards int) {
 	for _, p := range pairs {
 		addrs[p] = e2e.FreeAddr()
 		lst = append(lst, e2e.BuildListener(e2e.ListenerSpec{Name: "c01" + p, Addr: addrs[p], Downstream: proto[p[1]], Upstream: proto[p[3]],
-			Routes: []e2e.RouteSpec{{Prefix: "/", Cluster: "up" + p, TimeoutMs: 60000}}}))
+			Routes: []e2e.RouteSpec{{Prefix: "/r/", Cluster: "up" + p, TimeoutMs: 60000, RetryOn: true, NumRetries: 2, Extra: upProto(proto[p[3]])},
+				{Prefix: "/", Cluster: "up" + p, TimeoutMs: 60000, Extra: upProto(proto[p[3]])}}}))
 		cl = append(cl, e2e.ClusterSpec{Name: "up" + p, Hosts: []string{up.Addr}})
 	}
 	m := e2e.StartMosn(e2e.BuildConfig(lst, e2e.BuildClusters(cl), e2e.ScratchLog(tmp)))
@@ -233,33 +248,51 @@ func runHTTP(casesPath, tracePath string, shard, shards int) {
 		rbody := make([]byte, c.Rbody)
 		newGen(vh.Seed(), idx, "u").fill(rbody)
 		reqH, respH := headerSet(c.Hdr, "X-Req"), headerSet(c.Hdr, "X-Resp")
+		if c.Retry > 0 {
+			c.Uri = "/r" + c.Uri // the route with a retry policy
+		}
 		up.mu.Lock()
-		up.status, up.rhdr, up.rbody = c.Status, respH, rbody
+		up.status, up.rhdr, up.rbody, up.fail, up.last = c.Status, respH, rbody, c.Retry, 0
 		up.mu.Unlock()
 		for len(up.seen) > 0 {
 			<-up.seen
 		}
-		tr.Emit(vh.Ev{"ev": "req", "case": idx, "pair": c.Pair, "method": c.Method, "uri": c.Uri, "body": c.Body, "hdr": c.Hdr, "status": c.Status, "rbody": c.Rbody})
+		tr.Emit(vh.Ev{"ev": "req", "case": idx, "pair": c.Pair, "method": c.Method, "uri": c.Uri, "body": c.Body, "hdr": c.Hdr, "status": c.Status, "rbody": c.Rbody, "retry": c.Retry})
 		var r clientResp
 		if c.Pair[1] == '1' {
 			r = doH1(addrs[c.Pair], &c, reqH, body)
 		} else {
 			r = doH2(addrs[c.Pair], &c, reqH, body)
 		}
-		// the response (or its absence) is known: whatever the upstream recorded is complete by now
-		select {
-		case s := <-up.seen:
-			tr.Emit(vh.Ev{"ev": "seen", "arrived": true, "method": s.method, "uri": s.uri, "bodyeq": bytes.Equal(s.body, body),
-				"hdreq": sameHeaders(reqH, s.hdr), "host": s.host})
-		default:
-			tr.Emit(vh.Ev{"ev": "seen", "arrived": false, "method": "", "uri": "", "bodyeq": false, "hdreq": false, "host": ""})
+		// the response (or its absence) is known: whatever the upstream recorded is complete by now; one event per attempt
+		nseen := 0
+	drain:
+		for {
+			select {
+			case s := <-up.seen:
+				nseen++
+				tr.Emit(vh.Ev{"ev": "seen", "arrived": true, "attempt": nseen, "method": s.method, "uri": s.uri, "bodylen": len(s.body),
+					"bodyeq": bytes.Equal(s.body, body), "hdreq": sameHeaders(reqH, s.hdr), "host": s.host, "upver": s.major})
+			default:
+				break drain
+			}
 		}
-		wantBody := rbody
-		if c.Method == "HEAD" || c.Status == 204 {
+		if nseen == 0 {
+			tr.Emit(vh.Ev{"ev": "seen", "arrived": false, "attempt": 0, "method": "", "uri": "", "bodylen": 0, "bodyeq": false, "hdreq": false, "host": "", "upver": 0})
+		}
+		// the client must get the answer the upstream gave last (if the retry budget ran out that is the 503)
+		up.mu.Lock()
+		last := up.last
+		up.mu.Unlock()
+		wantBody, wantH := rbody, respH
+		if last == 503 && c.Status != 503 {
+			wantBody, wantH = []byte("retry-me"), nil
+		}
+		if c.Method == "HEAD" || last == 204 {
 			wantBody = nil
 		}
-		tr.Emit(vh.Ev{"ev": "resp", "ok": r.ok, "status": r.status, "statuseq": r.status == c.Status, "bodyeq": r.ok && bytes.Equal(r.body, wantBody),
-			"hdreq": r.ok && sameHeaders(respH, r.hdr)})
+		tr.Emit(vh.Ev{"ev": "resp", "ok": r.ok, "status": r.status, "statuseq": r.status == last, "bodyeq": r.ok && bytes.Equal(r.body, wantBody),
+			"hdreq": r.ok && sameHeaders(wantH, r.hdr), "attempts": nseen})
 		n++
 		return nil
 	})
